@@ -66,8 +66,9 @@ def run(tier):
             cases.append(("fault:" + f[0], mm, f))
     jobs = []
     for n, (kind, m, f) in enumerate(cases):
-        jobs.append({"id": "x%d" % n, "entry": "xml_buffer", "text": xmlgen.render_xml(docgen.to_xmlgen(m))})
-        jobs.append({"id": "t%d" % n, "entry": "xta", "text": docgen.render_xta(m)})
+        # both formats offer alternative spellings of the same model: CDATA sections / escaped text, abbreviated / full edges
+        jobs.append({"id": "x%d" % n, "entry": "xml_buffer", "text": xmlgen.render_xml(docgen.to_xmlgen(m), cdata=(n % 3 == 1))})
+        jobs.append({"id": "t%d" % n, "entry": "xta", "text": docgen.render_xta(m, abbreviate=(n % 2 == 0))})
     res = vf.run_jobs(jobs, c.run_dir, variant="plain", name="c05")
     ncmp = nrej = 0
     for n, (kind, m, f) in enumerate(cases):
